@@ -70,6 +70,17 @@ Theorem c04_theta_estimate_exact :
   forall s, t_theta s = MAX_THETA -> sk_is_empty s = false -> sk_estimate s = float_of_Z63 (Nz (t_n s)).
 Proof. exact estimate_exact. Qed.
 
+(* in every mode (estimation mode included) the estimate of a non-empty sketch is a FINITE f64 and never
+   below the retained count: theta stays in [1, 2^63-1], so theta/2^63 is a positive float <= 1 (Flocq).
+   (How close n / (theta/2^63) is to the real quotient is the rounding of two correctly rounded divisions;
+   no error bound is stated.) *)
+Theorem c04_theta_estimate_finite :
+  forall reorder, reorder_ok reorder -> forall c ops s, cfg_ok c -> reach reorder c ops s ->
+  sk_is_empty s = false ->
+  PrimFloat.is_finite (sk_estimate s) = true /\
+  PrimFloat.leb (float_of_Z63 (Nz (t_n s))) (sk_estimate s) = true.
+Proof. exact estimate_finite. Qed.
+
 (* trim_k_smallest: trim() leaves min(n, k) entries: nothing changes when n <= k, otherwise exactly
    the k smallest stay and theta becomes the (k+1)-th smallest *)
 Theorem c04_trim_k_smallest :
@@ -190,4 +201,22 @@ Example c04_example :
 Proof.
   cbv zeta. split; [unfold cfg_ok; cbn; lia|]. split; [vm_compute; reflexivity|].
   eexists. split; [vm_compute; reflexivity|]. vm_compute. repeat split; reflexivity.
+Qed.
+
+(* ... and trim / reset: 50 hashes (more than k = 32, fewer than the rebuild threshold 60), trim() keeps
+   the 32 smallest with theta = 33; reset() and one more update give a fresh sketch holding that hash *)
+Example c04_example_trim_reset :
+  let c := mkCfg 5 1 0x3ff0000000000000 37836 in
+  let ops := map OUpdate (rangeN 50 1) in
+  exists s1 s2 s3,
+    reach ascending c ops s1 /\ t_n s1 = 50 /\ t_theta s1 = MAX_THETA /\
+    reach ascending c (ops ++ [OTrim]) s2 /\ t_n s2 = 32 /\ t_theta s2 = 33 /\ sortN (sk_entries s2) = rangeN 32 1 /\
+    reach ascending c (ops ++ [OTrim; OReset; OUpdate 7]) s3 /\ t_n s3 = 1 /\ t_theta s3 = MAX_THETA /\
+    sk_entries s3 = [7] /\ t_lg_cur s3 = 5.
+Proof.
+  cbv zeta. eexists. eexists. eexists.
+  split; [vm_compute; reflexivity|]. split; [vm_compute; reflexivity|]. split; [vm_compute; reflexivity|].
+  split; [vm_compute; reflexivity|]. split; [vm_compute; reflexivity|]. split; [vm_compute; reflexivity|].
+  split; [vm_compute; reflexivity|]. split; [vm_compute; reflexivity|].
+  vm_compute. repeat split; reflexivity.
 Qed.
